@@ -165,6 +165,13 @@ func (g *G) funcHeader() *am.Fun {
 	}
 	np := g.rng("nparams", 0, 4)
 	f.CC = g.pick("cc", append([]string{"", "", "", "", "", ""}, CCs...))
+	if g.chance("numericcc", 1, 6) {
+		// a numerically spelled convention, mostly without a keyword of its own (holes of the enumeration);
+		// 1 is an open finding (cc 1), 71..100 carry verifier constraints (kernels, interrupts, shaders)
+		n := []int{2, 7, 12, 21, 42, 63, 73, 74, 99, 101, 300, 512, 1022, 8, 9, 64, 65, 70}[g.intn("ccnum", 18)]
+		f.CC = "cc " + itoa(n)
+		g.feat("cc/numeric")
+	}
 	g.noByval = f.CC != "" && f.CC != "ccc" && f.CC != "fastcc"
 	for i := 0; i < np; i++ {
 		p := &am.Param{T: g.paramType()}
@@ -398,7 +405,30 @@ func (g *G) globalInit(gl *am.Global) {
 	gl.Init = g.constOf(gl.T, 2)
 }
 
+// aliasOfElement adds an array global in a drawn address space and an alias (or, over a function-pointer
+// table, nothing) whose aliasee is a getelementptr constant expression into it.
+func (g *G) aliasOfElement() {
+	as := uint64([]int{0, 1, 3, 200}[g.intn("aoeas", 4)])
+	et := g.intType()
+	n := uint64(g.rng("aoelen", 1, 5))
+	at := am.A(n, et)
+	base := &am.Global{Name: g.globalName("aoe"), T: at, AddrSpace: as, Linkage: g.pick("aoelink", []string{"internal", "private", ""}), Init: &am.Const{K: am.CZero, T: at}}
+	g.M.Globals = append(g.M.Globals, base)
+	idx := func(t *am.Type, v int64) *am.Const { return &am.Const{K: am.CInt, T: t, Int: big.NewInt(v)} }
+	it := []*am.Type{am.I32, am.I64}[g.intn("aoeidxt", 2)]
+	a := &am.Alias{Name: g.globalName("al"), T: et, AddrSpace: as}
+	a.Aliasee = &am.Const{K: am.CExpr, T: am.PA(et, as), Expr: &am.Expr{Op: "getelementptr", ElemT: at, InBounds: g.chance("aoeinb", 1, 2), InRange: -1,
+		Args: []*am.Const{{K: am.CGlobal, T: base.PtrType(), Ref: base}, idx(it, 0), idx(it, int64(g.intn("aoeidx", int(n))))}}}
+	a.Linkage = g.pick("aoeallink", []string{"", "private", "internal", "weak"})
+	a.BareExpr = g.chance("aoebare", 1, 2)
+	g.M.Aliases = append(g.M.Aliases, a)
+	g.feat("top/alias-of-gep")
+}
+
 func (g *G) aliases() {
+	if g.chance("aliasofelement", 1, 4) {
+		g.aliasOfElement()
+	}
 	n := g.rng("naliases", 0, 2)
 	for i := 0; i < n; i++ {
 		x, xt := g.anyGlobal()
@@ -421,6 +451,16 @@ func (g *G) aliases() {
 		}
 		a := &am.Alias{Name: g.globalName("al"), T: xt.Elem, AddrSpace: xt.AddrSpace}
 		a.Aliasee = &am.Const{K: am.CGlobal, T: xt, Ref: x}
+		if gl, ok := x.(*am.Global); ok && gl.T.K == am.Array && gl.T.Len > 0 && g.chance("aliasgep", 1, 2) {
+			// alias of an element: getelementptr constant expression over the global, in its address space
+			idx := func(v int64) *am.Const { return &am.Const{K: am.CInt, T: am.I64, Int: big.NewInt(v)} }
+			et := am.PA(gl.T.Elem, gl.AddrSpace)
+			a.T = gl.T.Elem
+			a.Aliasee = &am.Const{K: am.CExpr, T: et, Expr: &am.Expr{Op: "getelementptr", ElemT: gl.T, InBounds: g.chance("aliasgepinb", 1, 2), InRange: -1,
+				Args: []*am.Const{{K: am.CGlobal, T: xt, Ref: x}, idx(0), idx(int64(g.intn("aliasgepidx", int(gl.T.Len))))}}}
+			a.BareExpr = g.chance("aliasgepbare", 1, 2)
+			g.feat("top/alias-of-gep")
+		}
 		a.Linkage = g.pick("allink", []string{"", "private", "internal", "weak", "weak_odr", "linkonce", "linkonce_odr", "external"})
 		if a.Linkage != "private" && a.Linkage != "internal" {
 			a.Visibility = g.pick("alvis", []string{"", "", "hidden", "protected"})
@@ -671,8 +711,20 @@ func (g *G) order() {
 }
 
 // DrawNoise draws spelling noise for the text emitter.
+// inlineKinds are the node kinds that may be written inline inside another node.
+var inlineKinds = []string{"", "DISubrange", "DIEnumerator", "DIBasicType", "DIDerivedType", "DISubroutineType", "DIFile", "DITemplateTypeParameter", "DITemplateValueParameter", "DILocation", "DILexicalBlockFile", "DINamespace", "DIStringType", "DIObjCProperty", "DIGlobalVariableExpression", "DILabel", "DIImportedEntity", "DIMacro"}
+
 func DrawNoise(rt *rapid.T) am.Noise {
+	inl := map[string]bool{}
+	if rapid.IntRange(0, 2).Draw(rt, "n.inlinemd") == 0 {
+		for _, k := range inlineKinds {
+			if rapid.IntRange(0, 2).Draw(rt, "n.inlinekind") == 0 {
+				inl[k] = true
+			}
+		}
+	}
 	return am.Noise{
+		InlineMD:        inl,
 		AlwaysQuote:     rapid.IntRange(0, 3).Draw(rt, "n.quote") == 0,
 		EscapePrintable: rapid.IntRange(0, 3).Draw(rt, "n.escape") == 0,
 		Explicit:        rapid.Bool().Draw(rt, "n.explicit"),
@@ -681,6 +733,25 @@ func DrawNoise(rt *rapid.T) am.Noise {
 		SplitAttrGroups: rapid.IntRange(0, 2).Draw(rt, "n.splitattrgroups") == 0,
 		Indent:          rapid.SampledFrom([]string{"", "\t", "        ", " "}).Draw(rt, "n.indent"),
 	}
+}
+
+// DrawNoiseWithAliases is DrawNoise plus, in one case out of three, non-struct type aliases and alias
+// chains for some scalar types (only for checks that do not compare type spellings with the model).
+func DrawNoiseWithAliases(rt *rapid.T) am.Noise {
+	n := DrawNoise(rt)
+	if rapid.IntRange(0, 2).Draw(rt, "n.typealias") == 0 {
+		n.TypeAlias = map[string][]string{}
+		for _, base := range []string{"i8", "i16", "i32", "i64", "half", "float", "double"} { // not i1: the grammar of github.com/llir/ll wants a literal `i1` in `br i1`
+			if rapid.IntRange(0, 2).Draw(rt, "n.aliasbase") == 0 {
+				var chain []string
+				for k := rapid.IntRange(1, 3).Draw(rt, "n.aliaschain"); k > 0; k-- {
+					chain = append(chain, fmt.Sprintf("$al%d.%s", k, base)) // `$` sorts before every other name: see KF-C01-nonstruct-named-type-order
+				}
+				n.TypeAlias[base] = chain
+			}
+		}
+	}
+	return n
 }
 
 // SparseMetadataIDs renumbers the module's metadata nodes with a drawn injective map (sparse, permuted IDs).
